@@ -178,6 +178,8 @@ pub struct TypeChecker {
     namespace_to_file: HashMap<NamespaceID, FileOrLib>,
     // TODO(ed): This can probably be removed via some trickery
     pub file_to_namespace: HashMap<FileOrLib, NamespaceID>,
+    /// The variables that name a blob or an enum: they are types, not values.
+    type_names: BTreeSet<usize>,
 }
 
 #[derive(Clone, Debug, Copy)]
@@ -210,6 +212,7 @@ impl TypeChecker {
                 .iter()
                 .map(|(a, b)| (b.clone(), a.clone()))
                 .collect(),
+            type_names: BTreeSet::new(),
         };
         for var in variables {
             let ty = res.push_type(Type::Unknown);
@@ -575,6 +578,7 @@ impl TypeChecker {
             sylt_macro::timed_handle!("typecheck::outer_statement", line = span.line_start);
         match &statement {
             S::Enum { name, var, span, variants, variables } => {
+                self.type_names.insert(*var);
                 let enum_ty = self.variables[*var].ty;
                 let mut resolved_variants = BTreeMap::new();
                 let mut type_params = Vec::new();
@@ -619,6 +623,7 @@ impl TypeChecker {
             }
 
             S::Blob { name, var, fields, variables, external, span } => {
+                self.type_names.insert(*var);
                 let blob_ty = self.variables[*var].ty;
                 let mut resolved_fields = BTreeMap::new();
                 let mut type_params = Vec::new();
@@ -718,6 +723,15 @@ impl TypeChecker {
         use Expression as E;
         let (expr_ret, expr) = match expression {
             E::Read { var, span, .. } => {
+                if self.type_names.contains(var) {
+                    return err_type_error!(
+                        self,
+                        *span,
+                        TypeError::Exotic,
+                        "'{}' is a type - it has no value",
+                        self.variables[*var].name
+                    );
+                }
                 let var = &self.variables[*var];
                 let immutable = var.kind.immutable();
                 if ctx.inside_pure && !immutable {
